@@ -323,13 +323,12 @@ def vtLookup (vt : VT) (cursor : Nat) : Str :=
 /-- the layout look-ahead shared by maps and lists: the name has a `1` at index > 0; `inner` = the
 element may live inside one cell (scalar/enum map value, scalar list element) -/
 def lookAhead (h : Header) (cursor : Nat) (pfx : Str) (inner : Bool) (isAgg : Str → Bool) : PLayout :=
-  let next := cursor + 1
-  if next < h.names.length then
-    let (nc, nextName) := h.validName next
+  let (nc, nextName) := h.validName (cursor + 1)
+  if nextName.isEmpty then .horizontal      -- no real next column (trailing blank name cells do not count)
+  else
     match indexOf 50 (trimPrefix nextName pfx) with
     | some (_ + 1) => if isAgg (h.typeAt nc) && inner then .incell else .horizontal
     | _ => if inner then .incell else .horizontal
-  else .horizontal
 
 def mapTypeText (k v : Str) : Str := S "map<" ++ k ++ S ", " ++ v ++ S ">"
 
